@@ -48,7 +48,7 @@ fn stderr_path() -> String {
 /// Body of the sacrificial child: run one case, write the result, exit.
 fn child_main(sc: &'static dyn Scenario, params: &Value, tmpdir: &str) -> ! {
     unsafe {
-        libc::alarm(300);
+        libc::alarm(if scen::VARIANT == "asan" { 240 } else { 120 });
         let lim = libc::rlimit { rlim_cur: 16000, rlim_max: 20000 };
         libc::setrlimit(libc::RLIMIT_NOFILE, &lim);
         // a run must not be able to exhaust the machine (e.g. a corrupt length prefix turned into a
